@@ -339,6 +339,14 @@ def run(ctx):
              'leaves_in': [leaf_enc(t, v) for v in leaves],
              'shown': '%sset_variable(%r, <list of shape %r>)' % ('DIM; ' if dimensioned else '', name + '()', shape)}
         outcome(e, 's', api.set(name + '()', lst))
+        if rng.random() < 0.5:
+            # other API calls between setting and reading back: what was set must not depend on being read at once
+            # (round-4 seeded change C43d left the last string of a list unprotected against the next expression)
+            between = rng.choice(['"x"+"y"', '1+1', 'LEN("abc"+"d")', 'STRING$(3,65)+"q"'])
+            api.call(lambda: S.evaluate(between))
+            if rng.random() < 0.5:
+                api.call(lambda: S.evaluate('"p"+STR$(7)'))
+            e['shown'] += '; evaluate(%r)' % between
         g = api.get(name + '()')
         outcome(e, 'g', g)
         rect, shp_out, leaves_out = shape_of(g[2]) if isinstance(g[2], list) else (False, [], [])
@@ -374,13 +382,16 @@ def run(ctx):
     # (round-3 seeded change C43c took the string pointer before that collection)
     counter = [0]
     npress = 0
+    api2 = Api()         # a session of its own: nothing but G$ and the new variable lives in its small memory
     for rep in range(ctx.pick(8, 80)):
         for slack in range(-2, 14):
-            api.sess.ex('CLEAR ,%d' % rng.choice([6000, 6200, 6500]))      # (earlier variables would fill the memory for real)
+            # (the same size every time: CLEAR cannot grow the memory again, and a refused CLEAR clears nothing)
+            if api2.sess.ex('CLEAR ,6000')[0] != 'ok':
+                raise core.MachineryError('CLEAR ,6000 refused in the memory-pressure arm')
             free = None
             for _ in range(400):                      # garbage: one variable set over and over
-                api.set('G$', bytes(rng.randint(33, 126) for _ in range(rng.randint(10, 40))))
-                f = api.call(lambda: S.evaluate('FRE(0)'))
+                api2.set('G$', bytes(rng.randint(33, 126) for _ in range(rng.randint(10, 40))))
+                f = api2.call(lambda: api2.S.evaluate('FRE(0)'))
                 if f[0] == 'ok' and f[2] is not None and 40 <= int(f[2]) <= 240 + min(slack, 0):
                     free = int(f[2])
                     break
@@ -391,14 +402,15 @@ def run(ctx):
             x = bytes(rng.randint(33, 126) for _ in range(free - slack))
             e = {'op': 'bytes', 'x': list(x), 'pressure': True,
                  'shown': 'CLEAR ,small; garbage until FRE(0)=%d; set_variable(%r, <%d bytes>) (a new variable)' % (free, name, len(x))}
-            outcome(e, 's', api.set(name, x))
-            g = api.get(name)
+            outcome(e, 's', api2.set(name, x))
+            g = api2.get(name)
             outcome(e, 'g', g)
             e['g'] = list(g[2]) if isinstance(g[2], (bytes, bytearray)) else [-1]
             events.append(e)
             npress += 1
             if e.get('sk') == 'pyexc' or e.get('gk') == 'pyexc':
                 break
+    api2.close()
     ctx.cov['new_string_scalars_created_under_memory_pressure'] = npress
     # unicode elements in a string array (documented: unicode is converted according to the codepage)
     for i in range(ctx.pick(30, 300)):
